@@ -101,6 +101,7 @@ class Sim:
         self.max_total_events = 6 * 10 ** 6
         self.eager_wake = 0.0        # probability that a put() executed by the driver (receive context) runs the woken thread immediately
         self.eager_switches = 0
+        self.held_locks = {}         # id(virtual lock) -> owning thread, for the locks currently held
         self.lock_waits = 0          # acquisitions of a virtual lock that found it taken
         self.drive_depth = 0         # > 0 while the driver waits for a lock inside a handler / application call
         self.reentrant_depth = 0     # > 0 while a frame is being handled re-entrantly inside a send call (no injected hold may start there)
@@ -143,6 +144,10 @@ class Sim:
             self.now = until
         self.events_run += n
         return n
+
+    def lock_held_by_other_thread(self):
+        me = threading.current_thread()
+        return any(o is not me for o in self.held_locks.values())
 
     def drive_until(self, pred, timeout=None, limit=30.0):
         """driver context blocks (on a lock): keep running events until pred() holds; False on time-out / nothing left to run"""
@@ -479,6 +484,8 @@ class VLock:
                                   % getattr(self.owner, 'name', self.owner))
         self.owner = me
         self.count += 1
+        if sim is not None:
+            sim.held_locks[id(self)] = me
         return True
 
     def release(self):
@@ -488,6 +495,8 @@ class VLock:
         if self.count <= 0:
             self.count = 0
             self.owner = None
+            if CUR is not None:
+                CUR.held_locks.pop(id(self), None)
             if self.waiters and CUR is not None:
                 CUR.wake(self.waiters.pop(0))
 
